@@ -61,7 +61,14 @@ def ref_swap(xs, m):
     return out
 
 
+
 def shards(tier, seed):
+    out = _shards(tier, seed)
+    # what runs under -O also runs in an interpreter that turns every warning into an error (-W error)
+    return out + [dict(s, _pyflags=["-W", "error"]) for s in out if s.get("_pyflags") == ["-O"]]
+
+
+def _shards(tier, seed):
     if tier == "quick":
         out = [{"kind": "perm", "lo": lo, "hi": lo + 76} for lo in range(0, 301, 76)]
         out += [{"kind": "perm", "lo": n, "hi": n + 1, "big": True} for n in (511, 512, 1000, 4097, 65535, 65536, 65537, 70001)]
